@@ -299,6 +299,12 @@ fn unhex(s: &str) -> Option<Vec<u8>> {
 fn op_lex(req: &Value) -> Value {
     let s = req["s"].as_str().unwrap_or("");
     match catch_unwind(|| lossless::check(s)) {
+        Ok(Ok(stats)) if req["brief"].as_bool().unwrap_or(false) => {
+            // (long inputs: only the counts)
+            let toks = lossless::lex(s).unwrap_or_default();
+            json!({"ok": {"n_tokens": toks.len(), "longest_token": toks.iter().map(|t| t.1).max().unwrap_or(0),
+                          "inner": stats.inner, "max_depth": stats.max_depth}})
+        }
         Ok(Ok(stats)) => {
             let toks = lossless::lex(s).unwrap_or_default();
             json!({"ok": {"tokens": toks.iter().map(|(k, l)| json!([format!("{:?}", k), l])).collect::<Vec<_>>(),
@@ -941,7 +947,9 @@ fn op_build_foreign(req: &Value) -> Value {
 
     let words_layout = req["layout"].as_str() == Some("words");
 
-    match catch_unwind(|| idx::build_foreign(&dir, &docs, words_layout)) {
+    let other_fields = req["layout"].as_str() == Some("fields");
+
+    match catch_unwind(|| if other_fields { idx::build_foreign_fields(&dir, &docs) } else { idx::build_foreign(&dir, &docs, words_layout) }) {
         Ok(Ok(())) => json!({"ok": docs.len()}),
         Ok(Err(e)) => json!({"err": e}),
         Err(p) => json!({"panic": vharness::panic_message(&p)}),
